@@ -182,7 +182,7 @@ var profiles = map[string]profile{
 		wkinds:  []string{"noti", "noti", "noti", "noti", "noti", "noti", "reset", "remove", "add"},
 		parks:   []string{"", "", "sub.registered", "sub.walk.begin"}},
 	"C08": {minTargets: 1, maxTargets: 2, modes: []string{"stream"}, gatedPct: 70, maxSteps: 36, maxSubs: 3, preload: 3, timeout: true, starPct: 30, pickPct: 60, aclPct: 25, bulkPct: 5, bulkNs: []int{5, 33, 40, 70, 130},
-		weights: map[string]int{"w": 18, "start": 4, "grant": 6, "sleep": 4, "check": 3, "drain": 3},
+		weights: map[string]int{"w": 18, "start": 4, "grant": 6, "sleep": 4, "check": 3, "drain": 3, "wrace": 2},
 		wkinds:  []string{"noti", "noti", "noti", "noti", "noti", "noti", "noti", "noti", "noti", "noti", "noti", "noti", "noti", "noti", "reset"},
 		parks:   []string{""}},
 	"C14": {minTargets: 2, maxTargets: 4, modes: []string{"stream"}, gatedPct: 30, maxSteps: 30, maxSubs: 4, preload: 4, starPct: 35, pickPct: 30, bulkPct: 4, bulkNs: []int{5, 40, 70},
@@ -474,7 +474,9 @@ func genStep(pr profile, targets, nsubs int) func(t *rapid.T) Step {
 		case "wrace":
 			s.Sub = rapid.IntRange(0, nsubs-1).Draw(t, "sub")
 			s.W = wop.Draw(t, "w")
-			switch rapid.IntRange(0, 2).Draw(t, "wrace-kind") {
+			switch rapid.IntRange(0, 3).Draw(t, "wrace-kind") {
+			case 3:
+				s.W = &WOp{Kind: "cancel", T: s.W.T}
 			case 0:
 				s.W = &WOp{Kind: "remove", T: s.W.T}
 			case 1:
@@ -554,13 +556,30 @@ func genBurstScenario(t *rapid.T) *Scenario {
 		if rapid.IntRange(0, 3).Draw(t, "big") == 0 {
 			// a big round: a backlog of many distinct leaves builds up behind a subscriber without
 			// credit, some of it is taken, more distinct leaves arrive, then everything drains
-			bulk := func(label string, start int) *WOp {
+			bulk := func(label string, start, n int) *WOp {
 				return &WOp{Kind: "noti", T: rapid.IntRange(0, sc.Targets-1).Draw(t, label+"t"),
-					Bulk: &Bulk{Start: start, N: rapid.SampledFrom([]int{20, 33, 40, 65, 70, 130}).Draw(t, label+"n"), V: int64(rapid.IntRange(0, 1).Draw(t, label+"v"))}}
+					Bulk: &Bulk{Start: start, N: n, V: int64(rapid.IntRange(0, 1).Draw(t, label+"v"))}}
 			}
-			sc.Steps = append(sc.Steps, Step{Kind: "w", W: bulk("big1", 0)})
-			sc.Steps = append(sc.Steps, Step{Kind: "grant", Sub: rapid.IntRange(0, nsubs-1).Draw(t, "bgsub"), N: rapid.SampledFrom([]int{1, 3, 10, 33}).Draw(t, "bgn")})
-			sc.Steps = append(sc.Steps, Step{Kind: "w", W: bulk("big2", rapid.SampledFrom([]int{0, 50, 200}).Draw(t, "big2start"))})
+			// (a fifth of the big rounds: a backlog past a thousand entries, worked down to a fraction of its
+			// peak without being emptied, then leaves that are still pending are written again)
+			n1 := rapid.SampledFrom([]int{20, 33, 40, 65, 70, 130, 33, 65, 1030, 1100}).Draw(t, "big1n")
+			if rapid.IntRange(0, 3).Draw(t, "primer") > 0 {
+				// one update first: the sender takes it and blocks in Send, so that the whole burst queues up behind an
+				// item in flight (the backlog model is exact only then)
+				sc.Steps = append(sc.Steps, Step{Kind: "w", W: &WOp{Kind: "noti", T: rapid.IntRange(0, sc.Targets-1).Draw(t, "primert"),
+					Updates: []Upd{{Path: []gn.Elem{{Name: "primer"}}, Val: gn.Val{Kind: "int", I: int64(r)}}}}})
+			}
+			sc.Steps = append(sc.Steps, Step{Kind: "w", W: bulk("big1", 0, n1)})
+			credits := []int{1, 3, 10, 33}
+			if n1 > 200 {
+				credits = []int{1, 33, n1/2 + 1, n1*3/4 + 6, n1*3/4 + 6, n1 - 40}
+			}
+			sc.Steps = append(sc.Steps, Step{Kind: "grant", Sub: rapid.IntRange(0, nsubs-1).Draw(t, "bgsub"), N: rapid.SampledFrom(credits).Draw(t, "bgn")})
+			starts := []int{0, 50, 200}
+			if n1 > 200 {
+				starts = []int{0, n1 - 30, n1 - 30, n1 - 100}
+			}
+			sc.Steps = append(sc.Steps, Step{Kind: "w", W: bulk("big2", rapid.SampledFrom(starts).Draw(t, "big2start"), rapid.SampledFrom([]int{20, 33, 40, 65, 70, 130}).Draw(t, "big2n"))})
 			if rapid.Bool().Draw(t, "bigdel") {
 				sc.Steps = append(sc.Steps, Step{Kind: "w", W: &WOp{Kind: "noti", T: rapid.IntRange(0, sc.Targets-1).Draw(t, "bdt"), Deletes: [][]gn.Elem{{{Name: "*"}}}, Back: rapid.IntRange(0, 2).Draw(t, "bdback")}})
 			}
